@@ -152,7 +152,8 @@ impl Engine for HandleTableEngine {
         if universe.is_empty() {
             universe.push(7);
         }
-        let max_ops = if tier == Tier::Quick { 120 } else { 200 };
+        // (the Miri interpreter is about four orders of magnitude slower: short histories there)
+        let max_ops = if cfg!(miri) { 36 } else if tier == Tier::Quick { 120 } else { 200 };
         let n_ops = rng.range(5, max_ops) as usize;
         let profile = rng.below(4);
         let mut ops = Vec::with_capacity(n_ops);
